@@ -5,8 +5,31 @@ package gossip
 import (
 	"time"
 
+	"github.com/andydunstall/piko/pkg/log"
 	v "github.com/andydunstall/piko/zzverif"
 )
+
+// The datagram path is driven through the real packetListener.handlePacket and
+// packetListener.delta; only the byte codec between sender and receiver is
+// replaced in the engine by an identity pair (the codec is C13's subject). A
+// native replay runs the real encodeDelta/decodeDelta round trip instead.
+//
+//gosym:stub github.com/andydunstall/piko/pkg/gossip.encodeDelta = vStubEncodeLateDelta if c11-listener
+//gosym:stub github.com/andydunstall/piko/pkg/gossip.decodeDelta = vStubDecodeLateDelta if c11-listener
+
+var (
+	vLateDelta  delta
+	vLateHeader deltaHeader
+)
+
+func vStubEncodeLateDelta(h deltaHeader, d delta, max int) ([]byte, error) {
+	vLateHeader, vLateDelta = h, d
+	return []byte{uint8(messageTypeDelta), supportedVersion}, nil
+}
+
+func vStubDecodeLateDelta(b []byte) (deltaHeader, delta, error) {
+	return vLateHeader, vLateDelta, nil
+}
 
 // vMember describes one remote node of a membership harness.
 type vMember struct {
@@ -259,6 +282,7 @@ func Harness_C11_expire() {
 // still holds X with arbitrary flags. B's real digest is applied by A. X may
 // only be re-learned if B considers it live (neither left nor unreachable).
 func Harness_C11_stays_forgotten() {
+	v.Tag("c11-listener")
 	a := vNewState("a", &vRecorder{})
 	b := vNewState("b", nil)
 	x := &nodeState{NodeMetadata: NodeMetadata{ID: "x", Addr: "addr-x", Version: v.U64("x.version")}, Entries: map[string]Entry{}}
@@ -280,7 +304,9 @@ func Harness_C11_stays_forgotten() {
 	if v.Choose("late-delta", 2) == 1 {
 		stale := digest{{ID: "x", Addr: "addr-x", Version: v.U64("stale.version")}}
 		x.Entries["k"] = Entry{Key: "k", Value: "v", Version: x.Version}
-		a.ApplyKnownDelta(b.Delta(stale, false))
+		pkt, perr := encodeDelta(deltaHeader{NodeID: "b", Addr: "addr-b"}, b.Delta(stale, false), 1400)
+		l := newPacketListener(&vPacketConn{}, a, a.failureDetector, 1400, newMetrics(), log.NewNopLogger())
+		v.Assert("C11/forgotten/late-delta-handled", perr == nil && l.handlePacket(pkt) == nil)
 		_, back := a.nodes["x"]
 		v.Assert("C11/forgotten/late-delta-does-not-resurrect", !back)
 		v.Cover("late-delta")
